@@ -26,6 +26,8 @@ Alphabets == [
   tokens   |-> <<"(", ")", "[", "]", "{", "}", "#{", "'", "\"]\"", "¬)¬", "a", "1", ":k", "; (\n", "¬x", "\"y">>,
   \* preamble-shaped texts (entries concatenated directly): module header, placeholder lines
   preamble |-> <<";; $MODULE ", ";; $MODULE", ";; $A 1", ";; $", "\n", "x", "$A", "(", ")", " ", ";;", "\n\n", "1", ";; $A">>,
+  \* token alphabet with the NUL stand-in (entries joined with a space)
+  nul      |-> <<"(", ")", "[", "]", "{", "}", "1", "a", "␀", "\"s\"", "; c\n", "'", "¬r¬">>,
   tokens2  |-> <<"(", ")", "[", "]", "{", "}", "#{", "~@", "@", "^", "\"a\"", ":k", "`", "~">>,
   \* string literals with every kind of backslash escape the scanner lets through (token fragments, joined directly)
   escseeds |-> <<"\"\\x00\"", "\"a\\u0000b\"", "\"\\000\"", "\"\\t\"", "\"\\x41\"", "\"\\101\"", "\"\\r\"", "\"\\U00000041\"",
@@ -36,7 +38,7 @@ Alphabets == [
   \* not an alphabet either: forms nested 400 x len deep, left open (incomplete: the expected closer is the innermost
   \* one's) or closed again (one value)
   deep     |-> <<"x">> ]
-Sep == IF AlphaName \in {"tokens", "tokens2"} THEN " " ELSE ""
+Sep == IF AlphaName \in {"tokens", "tokens2", "nul"} THEN " " ELSE ""
 A == Alphabets[AlphaName]
 NA == Len(A)
 
